@@ -11,6 +11,7 @@ FUNCTIONS = [
     "CircularRegion.CircularRegion.containsPoint",
     "CircularRegion.CircularRegion.containsRegion",
 ]
+SELFCHECK = ["RectangularRegion.RectangularRegion.containsRegion", "RectangularRegion.RectangularRegion.containsPoint", "RectangularRegion.RectangularRegion.__init__"]
 ASSUMPTIONS = ["A1", "A2"]
 EXPLANATION = ("Closed-set membership of both region classes, corner normalisation and soundness of all four "
                "containsRegion type pairs as post-conditions over symbolic real parameters (universally "
